@@ -50,10 +50,15 @@ CLAIMS["C15"] = dict(
          "(all shapes up to the vertex bound) and query points off the "
          "boundary; nlsat proves on every path that the result equals an "
          "independently formulated even-odd oracle (upward ray, no division)"
-         ", complemented when inverted, and that inputs are unmodified.",
+         ", complemented when inverted, and that inputs are unmodified. "
+         "The real PolygonFilter.save / _load run on symbolic name "
+         "characters (1..3 printable ASCII), inversion flag and identifier: "
+         "one or two filters written to one file are loaded back with equal "
+         "name, axes, inversion, identifier and points.",
     note="Trusted: z3/nlsat, symx, the hand model of the 10-line "
          "_points_in_poly wrapper. Exact reals, not IEEE doubles; vertex "
-         "count bounded; .poly text round trip not yet covered here.",
+         "count bounded; names with leading/trailing blanks or line breaks "
+         "and the %.15e rendering of coordinates are outside.",
     technique="symbolic execution of stripped .pyx + real Python wrapper, "
               "z3 nlsat (QF_NRA) equivalence with an even-odd oracle",
     ref="3/C15")
